@@ -320,6 +320,8 @@ func (w *World) sleep(d time.Duration) {
 	time.Sleep(d)
 	spinInWait.Store(false)
 	spinWaits.Add(1)
+	// no event-window boundary here: a library timer expiring at the very instant the sleep ends runs before or after
+	// the harness resumes as the runtime pleases; the window closes at the quiescence wait that always follows
 }
 
 // the bubble's clock starts in the year 2000 and is a 64-bit nanosecond count: keep well inside its range
